@@ -131,6 +131,9 @@ func Load(repo string, pkgs []string, whole bool) (*Prog, error) {
 		pr.allFuncs = append(pr.allFuncs, fs...)
 	}
 	sort.Slice(pr.allFuncs, func(i, j int) bool { return fnKey(pr.allFuncs[i]) < fnKey(pr.allFuncs[j]) })
+	for _, f := range pr.allFuncs {
+		normalizeReturns(f)
+	}
 	return pr, nil
 }
 
@@ -351,4 +354,65 @@ func shortName(f *ssa.Function) string {
 		}
 	}
 	return pkg + "." + name + suffix
+}
+
+
+// normalizeReturns undoes go/ssa's result spilling in functions that have a
+// defer: there `return v` is built as `*cell = v; rundefers; t = *cell; return
+// t`. Where nothing but rundefers lies between the store and the load and no
+// closure writes the cell (a deferred function that assigns a named result),
+// the returned value is v, and the Return is made to say so. Rules then read
+// the same return operands whether or not the function has a defer.
+func normalizeReturns(fn *ssa.Function) {
+	for _, b := range fn.Blocks {
+		if b == fn.Recover || len(b.Instrs) == 0 {
+			continue
+		}
+		r, ok := b.Instrs[len(b.Instrs)-1].(*ssa.Return)
+		if !ok {
+			continue
+		}
+		for i, res := range r.Results {
+			ld, ok := res.(*ssa.UnOp)
+			if !ok || ld.Op != token.MUL || ld.Block() != b {
+				continue
+			}
+			a, ok := ld.X.(*ssa.Alloc)
+			if !ok || a.Parent() != fn {
+				continue
+			}
+			st := lastStoreBefore(ld, a)
+			if st == nil {
+				continue
+			}
+			clean := true
+			for _, in := range b.Instrs[instrIndex(st)+1 : instrIndex(ld)] {
+				switch in.(type) {
+				case *ssa.Store, *ssa.UnOp, *ssa.RunDefers, *ssa.DebugRef:
+				default:
+					clean = false
+				}
+			}
+			for _, s2 := range storesTo(a) {
+				if s2.Parent() != fn {
+					clean = false
+				}
+			}
+			if !clean {
+				continue
+			}
+			r.Results[i] = st.Val
+			if refs := st.Val.Referrers(); refs != nil {
+				*refs = append(*refs, r)
+			}
+			if refs := ld.Referrers(); refs != nil {
+				for k, x := range *refs {
+					if x == ssa.Instruction(r) {
+						*refs = append((*refs)[:k], (*refs)[k+1:]...)
+						break
+					}
+				}
+			}
+		}
+	}
 }
